@@ -2,7 +2,7 @@
    Time is a property of CPython's regex engine; what is proved is a bound on the size of the backtracking
    search (the number of ends, with multiplicity, of the reference semantics Regex.ends) for the patterns
    REGENERATED from the sources; the step <-> seconds link is measured, not proved. *)
-From SV Require Import Base Regex RegexFacts RegexCost.
+From SV Require Import Base Regex RegexFacts RegexCost DetCost.
 From SV.gen Require Import RegexGen.
 
 (* a single-ended expression has at most one end on every subject *)
@@ -26,12 +26,11 @@ Theorem C07_progress : forall r, nullable r = false ->
 Proof. exact ends_progress. Qed.
 Print Assumptions C07_progress.
 
-(* FULL STATEMENT: reps_se holds (hence the polynomial bound) for all 50 patterns.  It holds for the 28
-   below (every pattern applied to document data, the line splitter, the escape decoders, pretty's tokens);
-   the 22 token patterns built on IDENTIFIER / COMMENTS have repetition bodies with more than one end (an
-   optional trailing blank after a hex escape, the star run that closes a comment) whose extra ends are dead
-   ends: for these the check SEARCHES the model for an ambiguous repetition (pump strings with exponentially
-   many ends) and measures the real engine; they are labelled partial. *)
+(* The syntactic certificate reps_se (every repetition body single-ended) holds for the 28 patterns below (every
+   pattern applied to document data, the line splitter, the escape decoders, pretty's tokens).  The 22 token patterns
+   built on IDENTIFIER / COMMENTS have repetition bodies with more than one end (the star run that closes a comment,
+   a white-space run, bounded hex runs) whose extra ends are dead ends; they are covered by the second certificate
+   further down (DetCost: determinism with one character of look-ahead), which holds for ALL 50 patterns. *)
 Theorem C07_certified_patterns :
   forallb reps_se
     [cp_RE_CSS_ESC; cp_RE_CSS_STR_ESC; cp_RE_WS; cm_RE_DATE; cm_RE_DATETIME; cm_RE_MONTH; cm_RE_NOT_EMPTY; cm_RE_NOT_WS;
@@ -40,3 +39,44 @@ Theorem C07_certified_patterns :
      pretty_RE_LSTRT; pretty_RE_PARAM; pretty_RE_SEP; pretty_RE_SQSTR; pretty_RE_TEND; pretty_RE_TSTRT; tok_amp] = true.
 Proof. vm_compute. reflexivity. Qed.
 Print Assumptions C07_certified_patterns.
+
+(* ---- the second certificate: deterministic iteration with one character of look-ahead (DetCost) ----
+   cert r: in every unbounded repetition of r at most one end of the body can be continued by another iteration
+   (sef body (first characters of body)); sef is decided syntactically (first sets, exclusive alternatives, the
+   guarded forms a|(?!a)b, x{n}|x{1,m}(?!x), d?X|dY) and proved sound against Regex.ends. *)
+Theorem C07_det_single_continuation : forall r F, sef r F = true -> forall st c, nv F (ends r st c) <= 1.
+Proof. exact sef_sound. Qed.
+Print Assumptions C07_det_single_continuation.
+
+(* the size of the backtracking search (number of ends, with multiplicity) of a certified expression is bounded for
+   EVERY subject, with no bound on its length ... *)
+Theorem C07_det_bound : forall r, cert r = true -> forall st c, length (ends r st c) <= bnd r (length (after st)).
+Proof. exact cert_bound. Qed.
+Print Assumptions C07_det_bound.
+
+(* ... by a polynomial in the subject length *)
+Theorem C07_det_bound_is_polynomial : forall r n, bnd r n <= (n + 2) ^ deg r.
+Proof. exact bnd_poly. Qed.
+Print Assumptions C07_det_bound_is_polynomial.
+
+(* FULL STATEMENT: every one of the 50 patterns REGENERATED from css_parser, css_match, util and pretty is certified *)
+Definition all_patterns : list re :=
+    [cp_RE_CSS_ESC; cp_RE_CSS_STR_ESC; cp_RE_WS; cm_RE_DATE; cm_RE_DATETIME; cm_RE_MONTH; cm_RE_NOT_EMPTY; cm_RE_NOT_WS;
+     cm_RE_TIME; cm_RE_WEEK; cm_RE_WILD_STRIP; util_RE_PATTERN_LINE_SPLIT; pretty_RE_CLASS; pretty_RE_DEND;
+     pretty_RE_DQSTR; pretty_RE_DSEP; pretty_RE_DSTRT; pretty_RE_EMPTY; pretty_RE_INT; pretty_RE_KWORD; pretty_RE_LEND;
+     pretty_RE_LSTRT; pretty_RE_PARAM; pretty_RE_SEP; pretty_RE_SQSTR; pretty_RE_TEND; pretty_RE_TSTRT; tok_amp;
+     tok_id; tok_class; tok_tag; tok_attribute; tok_at_rule; tok_combine; tok_pseudo_class; tok_pseudo_class_custom;
+     tok_pseudo_close; tok_pseudo_contains; tok_pseudo_dir; tok_pseudo_element; tok_pseudo_lang; tok_pseudo_nth_child;
+     tok_pseudo_nth_type; sp_re_pseudo_name; cp_RE_CUSTOM; cp_RE_NTH; cp_RE_VALUES; cp_RE_WS_BEGIN; cp_RE_WS_END; cm_RE_NUM].
+
+Theorem C07_all_patterns_certified : forallb cert all_patterns = true.
+Proof. vm_compute. reflexivity. Qed.
+Print Assumptions C07_all_patterns_certified.
+
+Corollary C07_all_patterns_polynomial : forall r, In r all_patterns ->
+  forall st c, length (ends r st c) <= (length (after st) + 2) ^ deg r.
+Proof.
+  intros r Hr st c. pose proof C07_all_patterns_certified as H. rewrite forallb_forall in H.
+  etransitivity; [apply cert_bound; apply H; exact Hr | apply bnd_poly].
+Qed.
+Print Assumptions C07_all_patterns_polynomial.
